@@ -140,7 +140,8 @@ CLAIMS = {
     note="Proved: the theorems above, about Model/Anf.lean and Sem. Caveat in the theorems: a source run that goes wrong (Fail.stuck = ill-typed IR) "
          "is only required to be matched by some outcome (ANF names all operands before the operation, so it notices an ill-typed operand later); "
          "well-typedness of the IR is C03's. Validated only: that the model equals anf.rs (exact tie on every real function, every run); the statement "
-         "lowering of go/compile.rs (compile_aexpr*, compile_while, compile_go) - covered by the stage-wise oracle on the Go stage. "
+         "lowering of go/compile.rs outside InGoFragment (inside it: Model/GoCompile.lean tied exactly by `gv gocomp`, Props/GoCompile.lean "
+         "compile_preserves / compile_order, see DESIGN 'Go back end (compile.rs) - as built') - covered by the stage-wise oracle on the Go stage. "
          "go/dce.rs has its own model (Model/Dce.lean) tied exactly to the real pass on every run (gv dce | gomlmodel dce) and Props/Dce.lean proves "
          "dce_preserves / dce_preserves_body / dce_preserves_syn: every definite Go.Sem run (normal end or panic) of a function body is reproduced by the DCE'd "
          "body with the same world, signal and result, under the decidable contract scopeErrs = [] /\\ shapeOK /\\ semOK (forward simulation; divergence of the "
@@ -238,10 +239,14 @@ CLAIMS = {
          "identifiers and integer literals with all 12 binary operators, both prefix operators, calls of any arity, field access and tuple "
          "projection: parse (printMin t) = t; well-formed only excludes an integer literal as receiver of a postfix operation, witnessed by "
          "literal_receiver_rejected); left_assoc; string literals: escape_accepted / decode_escape (every string has a spelling the lexer "
-         "regex accepts and lowering decodes it back), decode_plain, escape_table, multiline_fidelity. Tied to the Rust by a differential "
+         "regex accepts and lowering decodes it back), decode_plain, escape_table, multiline_fidelity; escapes_table_spec, surrogate_combine "
+         "(the surrogate-pair arithmetic, translated from the Rust expression on every run, equals 0x10000+(hi-0xD800)*0x400+(lo-0xDC00) "
+         "for all 1024x1024 pairs), decode_surrogate_pair, decode_bmp_escape, decode_lone_surrogate, decode_escapeAllU (round trip with the "
+         "all-\\u encoder). Tied to the Rust by a differential "
          "run: ~29 000 trees (all operator pairs and triples exhaustively, random larger trees, trees with redundant parentheses) are printed "
          "by the model, rendered with canonical blanks / random trivia and comments / glued, parsed by the real parse_ast_file, and the dumped "
-         "ast::Expr must equal both the original tree (property oracle) and the model's parse (tie); ~390 literal spellings (every integer "
+         "ast::Expr must equal both the original tree (property oracle) and the model's parse (tie); ~390 literal spellings plus ~11 800 \\u-escape spellings over the whole code space (every plane, all surrogates, lone "
+         "surrogates; in literals, patterns, multi-line strings; oracle computed in Python from the source text) (every integer "
          "suffix, floats, every escape, multi-line strings) are compiled by the whole pipeline and the EPrim reaching Core must be the denoted "
          "value (oracle) and equal the model's decoding (tie).",
     design_ref="§5 C11, §C11 — as built",
@@ -271,7 +276,7 @@ CLAIMS = {
          "line:column rendering exact, parse twice identical, no panic, no hang, deep nesting in child processes.",
     design_ref="§5 C12, §C12 — as built",
     note="Only validated, not proved: that logos' generated automaton is 'longest match, then priority' (L1 tie on exhaustive strings <=3 over 34 symbols, "
-         "<=4..8 over smaller alphabets, corpus, mutants, random); that file::file's event list is balanced with enough Advances (checked on every real "
+         "<=4..8 over smaller alphabets, a special-character alphabet (U+FEFF, Cf/Zs/Zl, NUL, NEL, CR, FF) and 27 special prefixes/suffixes/infixes on short texts and corpus files, corpus, mutants, random); that file::file's event list is balanced with enough Advances (checked on every real "
          "event list, owned by C04); determinism (parse twice). Trusted: Lean kernel, extract.py's regex-subset parser, harness serialisation, "
          "rowan/logos as observed. Known finding: stack overflow (abort, no tree) at ~10^5 nested '(' or '!'.",
     technique="Lean 4 proof (induction over token loop / event list, Brzozowski-derivative correctness, UTF-8 arithmetic) + table translator + "
@@ -414,6 +419,8 @@ CLAIMS = {
          "programs lie inside each fragment and why the others do not.",
     design_ref="§5 C01",
     note="Trusted: Sem/Go.Sem as definitions (Go.Sem reproduces all recorded corpus outputs), harness IR serialisers, the generator's coverage. "
+         "The Go back end has its own model (Model/GoCompile.lean, exact tie `gv gocomp` on every run) and, for the stage-(a) fragment, a proved "
+         "forward simulation Sem -> Go.Sem (Props/GoCompile.lean compile_preserves / compile_preserves_run); outside the fragment it stays validated here. "
          "Not covered: go_pprint.rs (AST is dumped before printing), real goroutine interleavings, Go's float formatting. "
          "SrcSem starts at ast::File: CST->AST lowering itself (operator association, literal decoding) is C11/C12's; SrcSem is validated "
          "like Go.Sem, by reproducing every recorded corpus output it can decide.",
@@ -430,7 +437,8 @@ CLAIMS = {
          "Known findings: closures in func-typed positions, nested type switch on one scrutinee, dyn-annotated struct literal.",
     design_ref="§5 C02; DCE (C02/C09) — as built",
     note="Trusted: Go.Check as our reading of the Go spec (accepts the 73 corpus programs real Go accepted, rejects 058 as real Go did); "
-         "goast dump; goparse.rs as our reading of Go's lexical grammar; compile.rs itself is validated per program, not modelled.",
+         "goast dump; goparse.rs as our reading of Go's lexical grammar; compile.rs is modelled (Model/GoCompile.lean, exact tie `gv gocomp`): the scope rules of its "
+         "output are proved for InGoFragment functions (Props/GoCompile.lean compile_wellformed + Props/Dce.lean), typing and everything outside the fragment are validated per program.",
     technique="translation validation with a Lean-defined Go type/scope checker on the real Go AST, printer round trip, and Lean theorems about the DCE pass"),
  "C14": dict(
     category="proof",
